@@ -4,6 +4,7 @@ ID=$1; shift
 P=/verif/seeded/$ID/patch.diff
 git -C /repo status --short | grep -q . && { echo "/repo not clean"; exit 2; }
 git -C /repo apply $P || exit 2
+export VERIF_SCRATCH_EVIDENCE=1
 for pr in "$@"; do
   out=$(python3 /verif/check.py $pr quick 2>&1); rc=$?
   sig=$(echo "$out" | grep '^  signature' | head -3 | tr '\n' ' ')
